@@ -37,7 +37,8 @@ THEOREMS = ["Tx3.Lang.C13", "Tx3.Lang.C13_by_name", "Tx3.Lang.C13_reports", "Tx3
 RULE = (
     "cases = 10 reproduced failures (missing field, Ada(), type name as value, odd hex, withdrawal without from, "
     "chain of 11 locals, min_utxo arity, index on a local, a broken second transaction, two transactions with one "
-    "name); 80% semantic mutations (1-2 of 16 kinds) of generated core programs, a quarter of them with two "
+    "name); a malformed-literal sweep (an odd-length hex literal at every literal position of 6 (thorough: 40) programs "
+    "in turn, metadata and signers included); 80% semantic mutations (1-2 of 16 kinds) of generated core programs, a quarter of them with two "
     "transactions, a third printed with random layout; 20% token-level mutations of examples/*.tx3. Non-trivial = "
     "the text parses; distinct = distinct source text"
 )
